@@ -91,6 +91,19 @@
 //     value. Half of the RegisterCallback callbacks also observe 0 (attributes
 //     cb, z) on each of their instruments: when the callback ran, that point
 //     must be in the collection with value 0.
+//   - In 40% of the programs the auto-instrumentation flag of internal/global
+//     (autoInstEnabled, flipped by an eBPF agent from outside the process; hook
+//     global.VerifSetAutoInstrumentation, build tag verif) is ON when the
+//     program starts and is switched off at the barrier before a generated
+//     phase (or never). It is only written while no goroutine of the program
+//     runs. While it is on, spans started through placeholder tracers that have
+//     no delegate yet are auto-instrumentation SDK spans: they belong to the
+//     agent, nothing is asserted about their delivery; starting / ending them
+//     must not panic. Everything else is unchanged: installation completes,
+//     and every span started after SetTracerProvider returned - through any
+//     tracer handle, also one that produced auto spans before, also with the
+//     flag still on (trace.go: Start uses the delegate when there is one) -
+//     reaches the installed SDK exactly once.
 //   - The only errors that may reach the otel error handler are those
 //     rejections (ErrInstrumentName, "invalid observable", the wrapper's two
 //     errors), at most one per provoking operation; every other op and every
@@ -158,6 +171,8 @@ type Case struct {
 	Phases  [][][]Op `json:"phases"`
 	Readers int      `json:"readers"` // ManualReaders of the installed MeterProvider (1-3)
 	Wrap    bool     `json:"wrap"`    // the installed MeterProvider is a wrapper of the harness that refuses marked instruments with (nil, err)
+	AutoOn  bool     `json:"auto_on,omitempty"`  // the auto-instrumentation flag (global.autoInstEnabled) is on when the program starts
+	AutoOff int      `json:"auto_off,omitempty"` // ... and is switched off at the barrier before this phase (>= number of phases: never)
 	Runs    int      `json:"runs"`
 }
 
@@ -743,6 +758,10 @@ func runOnce(c Case) ([]vk.Violation, map[string]bool) {
 	}
 
 	global.VerifResetGlobals()
+	// The flag is a plain bool an agent flips from outside the process: it is
+	// only touched here, at phase barriers and at the end, i.e. never while a
+	// goroutine of the program runs (no race of the harness's own making).
+	global.VerifSetAutoInstrumentation(c.AutoOn)
 	logs := &vk.LogCapture{}
 	otel.SetLogger(logr.New(logs))
 	errs := &vk.ErrCapture{}
@@ -776,6 +795,7 @@ func runOnce(c Case) ([]vk.Violation, map[string]bool) {
 	defer func() {
 		_ = w.mp.Shutdown(context.Background())
 		_ = w.tp.Shutdown(context.Background())
+		global.VerifSetAutoInstrumentation(false)
 		global.VerifResetGlobals()
 	}()
 
@@ -1083,6 +1103,9 @@ func runOnce(c Case) ([]vk.Violation, map[string]bool) {
 	}
 
 	for ph, phase := range c.Phases {
+		if c.AutoOn && ph == c.AutoOff {
+			global.VerifSetAutoInstrumentation(false)
+		}
 		vk.Parallel(len(phase), func(g int) {
 			for i, op := range phase[g] {
 				exec(ph, g, i, op)
@@ -1826,6 +1849,16 @@ func structure(c Case) (preUsedAfter, unregRace bool, cl map[string]bool) {
 	tpPh, hasTP := installPh["set_tp"]
 	prPh, hasPR := installPh["set_prop"]
 	unregBefore := map[int]bool{}
+	autoTracer := map[int]bool{} // placeholder tracers that started a span before installation while the flag was on
+	if c.AutoOn {
+		cl["auto:flag_on_at_start"] = true
+		if hasTP && c.AutoOff > tpPh {
+			cl["auto:flag_on_while_SetTracerProvider_runs"] = true
+		}
+		if hasTP && c.AutoOff > tpPh+1 {
+			cl["auto:flag_still_on_after_install"] = true
+		}
+	}
 	for ph, phase := range c.Phases {
 		for g, ops := range phase {
 			for _, op := range ops {
@@ -1842,6 +1875,13 @@ func structure(c Case) (preUsedAfter, unregRace bool, cl map[string]bool) {
 					if hasTP && tracerPh[op.U] < tpPh && ph > tpPh {
 						preUsedAfter = true
 						cl["pre_install_tracer_used_after_install"] = true
+						if autoTracer[op.U] {
+							cl["auto:tracer_that_started_auto_spans_used_after_install"] = true
+						}
+					}
+					if c.AutoOn && hasTP && ph < tpPh && ph < c.AutoOff {
+						autoTracer[op.U] = true
+						cl["auto:span_on_placeholder_tracer_before_install_with_flag_on"] = true
 					}
 				case "inject":
 					if hasPR && propPh[op.U] < prPh && ph > prPh {
@@ -1946,7 +1986,7 @@ func TestGlobalDelegation(t *testing.T) {
 	vk.Run(t, vk.Spec[Case]{
 		Property: "C16", Check: "global_delegation",
 		Rule: "generated five-phase concurrent programs over the public otel API, each executed twice from pristine globals: phase 0 (1-2 goroutines, before installation) obtains provider / propagator handles, meters and tracers (4 scopes with version / schema URL / attributes), instruments of all 14 kinds (shared identities, option callbacks), registers multi-instrument callbacks and unregisters some; " +
-			"phase 1 (1-7 goroutines) does the same plus measurements, spans, Inject/Extract, Collect while 1-3 goroutines each call otel.SetMeterProvider / SetTracerProvider / SetTextMapPropagator with one recording SDK (1-3 ManualReaders, recording SpanProcessor, recording propagator), 50% of the programs with a 'storm' (a meter with up to 10 instruments and 8 callbacks that a dedicated goroutine unregisters while the SDK is installed); phase 2 (1-4 goroutines) continues through old and new handles; phase 3 uses every handle once more and collects; phase 4 (>= 2 readers) lets every reader collect concurrently while the callbacks yield/sleep inside; about 1 instrument in 12 has a name the SDK refuses (callbacks on it are rejected at installation); in 40% of the programs the installed provider is a wrapper of the harness that refuses marked instruments (about 1 in 12) with (nil, err) and callbacks touching them; about 1 measurement in 5 carries 0 / an extreme / a float special value in a data point of its own, half of the callbacks also observe 0; self-installs (SetX(GetX())) anywhere; " +
+			"phase 1 (1-7 goroutines) does the same plus measurements, spans, Inject/Extract, Collect while 1-3 goroutines each call otel.SetMeterProvider / SetTracerProvider / SetTextMapPropagator with one recording SDK (1-3 ManualReaders, recording SpanProcessor, recording propagator), 50% of the programs with a 'storm' (a meter with up to 10 instruments and 8 callbacks that a dedicated goroutine unregisters while the SDK is installed); phase 2 (1-4 goroutines) continues through old and new handles; phase 3 uses every handle once more and collects; phase 4 (>= 2 readers) lets every reader collect concurrently while the callbacks yield/sleep inside; about 1 instrument in 12 has a name the SDK refuses (callbacks on it are rejected at installation); in 40% of the programs the installed provider is a wrapper of the harness that refuses marked instruments (about 1 in 12) with (nil, err) and callbacks touching them; about 1 measurement in 5 carries 0 / an extreme / a float special value in a data point of its own, half of the callbacks also observe 0; in 40% of the programs the auto-instrumentation flag is on from the start (spans through placeholder tracers before installation are auto-SDK spans) and switched off at a generated phase barrier or never; self-installs (SetX(GetX())) anywhere; " +
 			"non-trivial = a handle obtained before the installation is used after it AND an Unregister of a pre-install callback runs in the same phase as SetMeterProvider on another goroutine; distinct = distinct case encodings",
 		Quick: 1000, Thorough: 15000,
 		Gen: gen, Run: run, Repeat: 200,
